@@ -46,9 +46,9 @@ Proof.
     cbn [f_obj] in H.
     destruct (negb (has_reader p w)).
     { destruct (disp_of (get_proc pid w) SIGPIPE); injection H as <-; now flat_simpl. }
-    destruct (pipe_free (get_pipe p w) <=? 0); try discriminate.
+    destruct (pipe_free_cap (w_pipecap w) (get_pipe p w) <=? 0); try discriminate.
     injection H as <-.
-    destruct (Z.min n (pipe_free (get_pipe p w)) <? n); now flat_simpl.
+    destruct (Z.min n (pipe_free_cap (w_pipecap w) (get_pipe p w)) <? n); now flat_simpl.
   - destruct (pr_fds (get_proc pid w) !! fd) as [[o cx nb]|].
     2:{ injection H as <-. now flat_simpl. }
     destruct o; try (injection H as <-; now flat_simpl).
